@@ -123,6 +123,54 @@ class FactEngine(object):
         self.keys.subst = {}
         for i in sorted(subst, key=lambda j: (decls[j].get('_pos') or ('', 0, 0))[1] or 0):
             self.keys.subst[i] = self.keys.key(subst[i])
+        # identification keys: additionally, a never-written local (scalar, pointer, reference or
+        # const-qualified object) initialised from a call stands for that call's value.  Used by
+        # rules to tell WHAT value an expression denotes, never to relate two evaluations.
+        ident = {}
+        for i, d in decls.items():
+            if i in written or i in subst or d.get('kind') == 'ParmVarDecl':
+                continue
+            ks = [c for c in kids(d) if not c.get('kind', '').endswith('Attr')]
+            if not ks or not stable(ks[-1], d):
+                continue
+            if any(y.get('kind') in ('CXXNewExpr', 'LambdaExpr', 'CompoundAssignOperator') or
+                   (y.get('kind') == 'UnaryOperator' and y.get('opcode') in ('++', '--')) or
+                   (y.get('kind') == 'BinaryOperator' and y.get('opcode') == '=') for y in walk(ks[-1])):
+                continue
+            dt = dtype(d)
+            if not (dt.endswith('*') or dt.endswith('&') or dt.endswith('* const') or dt.endswith('*const') or
+                    dt.startswith('const ') or re.match(r'^(unsigned |signed )?(bool|char|short|int|long|long long)$', dt)):
+                continue
+            ident[i] = ks[-1]
+        self._ident = dict(self.keys.subst)
+        self._ident_init = dict(subst)
+        self._ident_init.update(ident)
+        saved = self.keys.subst
+        self.keys.subst = self._ident
+        for i in sorted(ident, key=lambda j: (decls[j].get('_pos') or ('', 0, 0))[1] or 0):
+            self._ident[i] = self.keys.key(ident[i])
+        self.keys.subst = saved
+
+    def walk_ident(self, e, _seen=None):
+        """Nodes of e, and of the initialisers of the write-once locals it names (recursively)."""
+        _seen = _seen if _seen is not None else set()
+        for x in walk(e):
+            yield x
+            if x.get('kind') == 'DeclRefExpr':
+                i = (x.get('referencedDecl') or {}).get('id')
+                if i in getattr(self, '_ident_init', {}) and i not in _seen:
+                    _seen.add(i)
+                    for y in self.walk_ident(self._ident_init[i], _seen):
+                        yield y
+
+    def ident_key(self, e):
+        """Key of e with write-once locals replaced by what they were initialised from (calls included)."""
+        saved = self.keys.subst
+        self.keys.subst = getattr(self, '_ident', saved)
+        try:
+            return self.keys.key(e)
+        finally:
+            self.keys.subst = saved
 
     def key(self, e):
         return self.keys.key(e)
